@@ -799,6 +799,77 @@ func TestHistories(t *testing.T) {
 	})
 }
 
+// runGatedHandler: SubscribeOn(h) with h busy. Publish(v) returns while h is still inside a gate
+// task; only then one subscription is removed and another added. v was published while the removed
+// one was registered during the whole call (it gets v exactly once) and before the new one existed
+// (it never gets v): what a Publish delivers is fixed when Publish runs, not when h gets to it.
+func runGatedHandler(nsubs, removeIdx int) (key, msg string) {
+	h := fpgo.Handler.NewByCh(make(chan func(), 4*nsubs+8))
+	defer h.Close()
+	gate := make(chan struct{})
+	h.Post(func() { <-gate })
+	p := fpgo.PublisherNewGenerics[int]()
+	p.SubscribeOn(h)
+	var mu sync.Mutex
+	got := map[int][]int{}
+	mk := func(id int) fpgo.Subscription[int] {
+		return fpgo.Subscription[int]{OnNext: func(v int) { mu.Lock(); got[id] = append(got[id], v); mu.Unlock() }}
+	}
+	subs := make([]*fpgo.Subscription[int], nsubs)
+	for i := range subs {
+		subs[i] = p.Subscribe(mk(i))
+	}
+	pubDone := make(chan struct{})
+	go func() { defer close(pubDone); p.Publish(7) }()
+	select {
+	case <-pubDone:
+	case <-time.After(vlib.StallBudget()):
+		close(gate)
+		return "", "" // Publish waits for the busy handler: nothing to decide here
+	}
+	p.Unsubscribe(subs[removeIdx])
+	p.Subscribe(mk(100))
+	close(gate)
+	fin := make(chan struct{})
+	h.Post(func() { close(fin) })
+	select {
+	case <-fin:
+	case <-time.After(vlib.StallBudget()):
+		return "", ""
+	}
+	mu.Lock()
+	defer mu.Unlock()
+	for i := 0; i < nsubs; i++ {
+		if len(got[i]) != 1 || got[i][0] != 7 {
+			return "C10/subscribeOn-late-snapshot", fmt.Sprintf("subscription %d (registered during the whole Publish(7) call%s) received %v, want exactly [7]", i, map[bool]string{true: ", unsubscribed only after Publish returned", false: ""}[i == removeIdx], got[i])
+		}
+	}
+	if len(got[100]) != 0 {
+		return "C10/subscribeOn-late-snapshot", fmt.Sprintf("a subscription added after Publish(7) had returned received %v", got[100])
+	}
+	return "", ""
+}
+
+func TestSubscribeOnGated(t *testing.T) {
+	if vlib.Replaying() {
+		t.Skip()
+	}
+	for n := 1; n <= 5; n++ {
+		for r := 0; r < n; r++ {
+			for rep := 0; rep < vlib.Pick(3, 30); rep++ {
+				vlib.S().Eval("subscribeOn-gated")
+				vlib.S().NonTrivial("subscribeOn-gated", fmt.Sprintf("subs=%d remove=%d", n, r))
+				if key, msg := runGatedHandler(n, r); key != "" {
+					vlib.WriteReplay("C10/gated", map[string]int{"subs": n, "remove": r})
+					if vlib.Fail(t, key, "subs=%d remove=%d: %s", n, r, msg) {
+						return
+					}
+				}
+			}
+		}
+	}
+}
+
 func TestSubscribeOn(t *testing.T) {
 	vlib.Check(t, "subscribeOn", 300, 10000, func(t *rapid.T) {
 		c := handlerCase{
